@@ -111,7 +111,7 @@ def sandbox_installs(sb, policy_file, scratch, tag):
 
 # ---- objdump site model (text in `go tool objdump` layout)
 
-def site_function(idx, name, nr, via="raw", pad=0):
+def site_function(idx, name, nr, via="raw", pad=0, raw_ins="SYSCALL"):
     """One function that makes one syscall."""
     lines = ["TEXT main.%s(SB) /src/main.go" % name]
     a = 0x460000 + idx * 0x100
@@ -119,7 +119,7 @@ def site_function(idx, name, nr, via="raw", pad=0):
         lines.append("  main.go:%d\t0x%x\t\t4883ec18\t\tSUBQ $0x18, SP\t" % (100 + k, a + 4 * k))
     if via == "raw":
         lines.append("  main.go:%d\t0x%x\t\t48c7c0%08x\t\tMOVQ $0x%x, AX\t" % (200 + idx, a + 0x40, nr, nr))
-        lines.append("  main.go:%d\t0x%x\t\t0f05\t\t\tSYSCALL\t" % (201 + idx, a + 0x47))
+        lines.append("  main.go:%d\t0x%x\t\t0f05\t\t\t%s\t" % (201 + idx, a + 0x47, raw_ins))
     else:
         lines.append("  main.go:%d\t0x%x\t\t48c70424%08x\t\tMOVQ $0x%x, 0(SP)\t" % (200 + idx, a + 0x40, nr, nr))
         lines.append("  main.go:%d\t0x%x\t\te800000000\t\tCALL syscall.Syscall(SB)\t" % (201 + idx, a + 0x48))
